@@ -2,6 +2,10 @@
 import json, os
 R = {
  "C14-g": (7, False, "C14 T4-elimination-ranges extended to the START of every row / column loop (table: pivot search from i; swaps from 0 or i; elimination outer loop from i + 1, inner from 0 or i)", "pivot strictly below and right of the target position and the two swapped rows differ in a column between target and the pivot column: <a,b,c | a^2, bc> gives [0,0] instead of [0,2]"),
+ "C11-g": (7, True, "", "a non-trivial subgroup whose generators force a coincidence so that compact() gives a row a smaller number than all its neighbours: D_n (n >= 5) with H = <r s r>"),
+ "C07-g": (7, False, "C07 T9-orbifold-key (the generator's key is cones . (* iff !is_loopless) . corners . (x iff !weakly oriented), lists descending, degrees filed by fixed-point / chain tests)", "positive curvature on a D-set with a mirror but no corner: orbifolds 2*, 3*, 4* (2 of 498 D-sets up to size 8)"),
+ "C12-g": (7, False, "C12 T3-no-empty-relator made exact: the guard is evaluated for lengths 0, 1, 2, 5 and must let through exactly the non-empty relators (same for C13 T3-every-relator-filed)", "a presentation with a one-letter relator, e.g. <a, b | a, b^3>"),
+ "C13-g": (7, True, "", "stabilizer(base_point != 0) on a table with more than one row"),
  "C19-g": (7, True, "", "undirected edge cut with source label > sink label; inside_vertices is then the sink's side"),
 }
 for sid, (rnd, first, strength, needs) in R.items():
